@@ -134,15 +134,14 @@ impl Path {
                         first_point,
                     );
                 }
-                self.first_point = None;
+                // anything that follows continues from the start of the subpath
+                self.current_point = self.first_point;
             }
 
             // to determine containment we just need to count crossing of ray from (x, y) going to infinity
             fn add_edge(&mut self, p1: Point, p2: Point) {
                 let (x1, y1) = (p1.x, p1.y);
                 let (x2, y2) = (p2.x, p2.y);
-
-                let dir = if y1 < y2 { -1 } else { 1 };
 
                 // entirely to the right
                 if x1 > self.x && x2 > self.x {
@@ -159,18 +158,6 @@ impl Path {
                     return
                 }
 
-                // entirely to the left
-                if x1 < self.x && x2 < self.x {
-                    if y1 > self.y && y2 < self.y {
-                        self.count += 1;
-                        return;
-                    }
-                    if y2 > self.y && y1 < self.y {
-                        self.count -= 1;
-                        return;
-                    }
-                }
-
                 let dx = x2 - x1;
                 let dy = y2 - y1;
 
@@ -178,9 +165,27 @@ impl Path {
                 let cross = dx * (self.y - y1) - dy * (self.x - x1);
 
                 if cross == 0. {
-                    self.on_edge = true;
-                } else if (cross > 0. && dir > 0) || (cross < 0. && dir < 0) {
-                    self.count += dir;
+                    // we're on the line through the edge. We're only on the edge if we're
+                    // also between its end points. We already know that we are vertically.
+                    if self.x >= x1.min(x2) && self.x <= x1.max(x2) && (dx != 0. || dy != 0.) {
+                        self.on_edge = true;
+                    }
+                    return;
+                }
+
+                // The ray goes to the left. An edge crosses it if its end points are on
+                // different sides of the ray's line. The upper end point is included and
+                // the lower one isn't so that a crossing at a vertex shared by two
+                // edges is counted once and horizontal edges are never counted.
+                if y1 <= self.y && y2 > self.y {
+                    // downward edge: it's to the left of us if we're on its right side
+                    if cross < 0. {
+                        self.count -= 1;
+                    }
+                } else if y2 <= self.y && y1 > self.y {
+                    if cross > 0. {
+                        self.count += 1;
+                    }
                 }
             }
         }
